@@ -375,7 +375,8 @@ def make_case(i):
         ce = gen_pt(rnd)
         rx = rnd.choice([1.0, 5.0, 10.0])
         ry = rx * rnd.choice([1.0, 0.5, 0.1, 0.02])
-        irx, iry = (0.0, 0.0) if pk != 'ring' else (rx * 0.5, ry * 0.5)
+        # rings: the inner ellipse has its own aspect ratio (also elongated along the other axis than the outer one)
+        irx, iry = (0.0, 0.0) if pk != 'ring' else (rx * rnd.choice([0.5, 0.1, 0.7]), ry * rnd.choice([0.5, 0.8, 0.1]))
         a0, a1 = (0.0, 0.0) if pk != 'slice' else (rnd.choice([0.0, 0.5, -1.0]), rnd.choice([0.1, 1.0, 2.5, 4.0]))
         c.op('prim', 'ellipse', fl(ce[0]), fl(ce[1]), fl(rx), fl(ry), fl(irx), fl(iry), fl(a0), fl(a1), fl(ptol))
         prims.append((pk, ce, rx, ry, irx, iry, a0, a1, ptol))
@@ -774,6 +775,7 @@ def check_prim(chk, rp, pr, pts):
         _, ce, rx, ry, irx, iry, a0, a1, tol = pr
         # every vertex on the outer ellipse, the inner ellipse, or (slice) the centre
         outer = []
+        inner = []
         for p in pts:
             x, y = p[0] - ce[0], p[1] - ce[1]
             fo = (x / rx) ** 2 + (y / ry) ** 2
@@ -781,7 +783,7 @@ def check_prim(chk, rp, pr, pts):
             if abs(fo - 1) <= 1e-9:
                 outer.append(p)
             elif fi is not None and abs(fi - 1) <= 1e-9:
-                pass
+                inner.append(p)
             elif k == 'slice' and x == 0 and y == 0:
                 pass
             else:
@@ -804,6 +806,22 @@ def check_prim(chk, rp, pr, pts):
                 worst = max(worst, dist_seg(pm, a, b))
         if worst > FACTOR * tol + 1e-9:
             bad('deviation', '%s (radii %g x %g, angles %g..%g): the exact ellipse is %.4g from the outline (tolerance %g)' % (k, rx, ry, a0, a1, worst, tol))
+        # the inner boundary of a ring against the inner ellipse, the same way
+        worst = 0.0
+        for a, b in zip(inner, inner[1:]):
+            ta = math.atan2((a[1] - ce[1]) / iry, (a[0] - ce[0]) / irx)
+            tb = math.atan2((b[1] - ce[1]) / iry, (b[0] - ce[0]) / irx)
+            dt = tb - ta
+            while dt <= -math.pi:
+                dt += 2 * math.pi
+            while dt > math.pi:
+                dt -= 2 * math.pi
+            for s in (0.25, 0.5, 0.75):
+                tm = ta + dt * s
+                pm = (ce[0] + irx * math.cos(tm), ce[1] + iry * math.sin(tm))
+                worst = max(worst, dist_seg(pm, a, b))
+        if inner and worst > FACTOR * tol + 1e-9:
+            bad('deviation', 'ring (inner radii %g x %g inside %g x %g): the exact inner ellipse is %.4g from the outline (tolerance %g)' % (irx, iry, rx, ry, worst, tol))
     elif k == 'racetrack':
         _, ce, ln, r, vert, tol = pr
         for p in pts:
